@@ -1075,6 +1075,24 @@ def cmd_stackeffect(args):
                                      op=op, arg=a, expected=want, observed=got)
                 if takes:
                     acc.distinct.add(sha([vs(V), op, a]))
+        # operand-less call form, judged wherever CPython accepts it
+        for ops, want in sorted(t.get("noarg", {}).items()):
+            op = int(ops)
+            if want == "X":
+                continue
+            name = t["opname"][op] if op < len(t["opname"]) else str(op)
+            acc.evaluations += 1
+            acc.count("c15_operandless_calls")
+            srcs = [("xstack_effect", lambda: xstack_effect(op, opc)), ("make_std_api", lambda: api.stack_effect(op))]
+            if native is not None:
+                srcs.append(("std-native", lambda: native.stack_effect(op)))
+            for sname, fn in srcs:
+                try:
+                    got = fn()
+                except Exception as e:
+                    got = "raises:" + type(e).__name__
+                if got != want:
+                    acc.mismatch("C15|v%s|%s|arg:none|%s" % (vs(V), name, sname), op=op, arg=None, expected=want, observed=got)
         acc.sample({"version": vs(V), "opcodes": len(t["effects"]), "operands_per_opcode": len(argl)})
     return acc.result()
 
